@@ -1,6 +1,6 @@
 (* C17 — property theorems.  Only statements, [exact lemma] and Print Assumptions. *)
 From Coq Require Import ZArith List Sorted.
-From FV Require Import C17.Model C17.Proofs.
+From FV Require Import C17.Model C17.Proofs C17.Closure.
 Import ListNotations.
 Open Scope Z_scope.
 
@@ -15,10 +15,22 @@ Theorem c17_closure_contains_requested : forall F gids unis, NoDup (map fst (f_c
   /\ (forall g, In g kept -> 0 <= g < f_n F).
 Proof. exact closure_contains_requested_l. Qed.
 
-(* FULL STATEMENT (false of the faithful model, see c17_closure_truncation_refuted):
-     forall g in kept, glyph_at F g = GC cs h -> forall c in cs, c < f_n F -> In c kept.
-   Proved part: a composite that the closure expands (first visit, nesting depth <= 64, budget left)
-   gets all of its direct components. *)
+(* every component of every kept composite is kept - under the explicit hypotheses the code needs:
+   component ids inside the font, nesting bounded by a ranking function <= 65 that strictly decreases along
+   component edges (so no cycles), and the operation budget |glyphset_gsub| * 64 >= number of glyphs.
+   WITHOUT them the statement is false of the faithful model: c17_closure_truncation_refuted. *)
+Theorem c17_closure_component_closed : forall F (rank : Z -> Z),
+  (forall g, 0 <= rank g <= 65) ->
+  (forall g cs h c, glyph_at F g = GC cs h -> In c cs -> rank c < rank g) ->
+  (forall g cs h c, glyph_at F g = GC cs h -> In c cs -> 0 <= c < f_n F) ->
+  forall gids unis,
+  f_n F <= zlen (view (f_n F) (gsub_set F gids unis)) * 64 ->
+  forall g cs h c, In g (kept_glyphs F gids unis) -> glyph_at F g = GC cs h -> In c cs ->
+                   In c (kept_glyphs F gids unis).
+Proof. exact closure_component_closed_l. Qed.
+
+(* without any hypothesis: a composite that the closure expands (first visit, nesting depth <= 64,
+   budget left) gets all of its direct components *)
 Theorem c17_closure_component_closed_partial : forall fuel F gid set op d cs h,
   memz gid set = false -> d <= 64 -> 1 <= op -> glyph_at F gid = GC cs h ->
   forall c, In c cs -> In c (fst (clos (S (S fuel)) F gid (set, op) d)).
@@ -101,6 +113,7 @@ Theorem c17_subset_all_identity : forall F gids unis retain, NoDup (map fst (f_c
 Proof. exact subset_all_identity_l. Qed.
 
 Print Assumptions c17_closure_contains_requested.
+Print Assumptions c17_closure_component_closed.
 Print Assumptions c17_closure_component_closed_partial.
 Print Assumptions c17_closure_truncation_refuted.
 Print Assumptions c17_gid_map_bijective_monotone.
